@@ -13,7 +13,7 @@ from vp.pbt import Outcome, Stats, call, drive, exc_sig
 PROPERTY = "C14"
 LEVEL = "exploration"
 SHARDS = {"quick": 16, "thorough": 16}
-RULE = ("a bundle of 2-5 Sids (valid / edited / junk strings, the same string forced to sibling types, equal Sids built through string, uri, "
+RULE = ("a bundle of 2-5 Sids (valid / edited / junk strings, 1 in 8 with an empty value, the same string forced to sibling types, equal Sids built through string, uri, "
         "fields, query and copy) and a sequence of 3-25 public operations on bundle members and on Sids derived from them (parent, get_as, get_with "
         "by keyword / key-value / query, copy, '/', get, fields, as_query, uri, path, match, is_leaf, is_search, children, siblings, exists, "
         "keytype, basetype, len, repr, comparison, hashing, Sid(sid), Sid(fields=dict) with later mutation of the passed dict); every returned "
@@ -42,6 +42,12 @@ def cases(draw):
     m = model.sid
     bundle = []
     t, f = draw(gens.typed_fields(m, search_p=0.15, wide=True))
+    if draw(st.integers(0, 7)) == 0:
+        # a key present with an empty value (the free patterns accept it)
+        cands = [k for k in m.keys(t) if m.accepts_value(t, k, "")]
+        if cands:
+            f = dict(f)
+            f[draw(st.sampled_from(cands))] = ""
     s = m.render(t, f)
     bundle.append({"how": "string", "text": s})
     n = draw(st.integers(1, 4))
